@@ -313,6 +313,7 @@ typedef struct pv_obs {
     uint8_t image[32];
     uint64_t birthday;
     unsigned feat[8];
+    unsigned feat_hi[8], hi_mask[8];      /* the same queries with bits above the three user bits set in the mask argument */
     int encrypted;
     uint8_t pw[32]; size_t pwlen; uint8_t salt[32]; size_t saltlen; uint64_t iters; size_t keylen; int nkdf;
 } pv_obs;
@@ -329,6 +330,7 @@ void pv_arm_some_request(void);
 #define PV_NPATHS 5
 extern unsigned pv_path_mask;
 extern const char* const pv_path_name[PV_NPATHS];      /* created, loaded, decoded, crypt-twice, decrypted-copy */
+polyseed_data* pv_seed_any_path(pv_rng* rng, const pv_mseed* m, unsigned coin);
 polyseed_data* pv_seed_by_path(pv_rng* rng, const pv_mseed* m, int how, unsigned coin);      /* how 0 needs (m->features & 16) == 0 */
 
 /* the same clause under contention: `nthreads` threads, each with its own thread-local world (yields inside the dependency
